@@ -93,7 +93,11 @@ def gen_case(seed, tier):
         "pattern": rng.choice(["random", "ascending", "descending", "clustered", "alternating"]),
         "universe": universe,
         "preload": rng.choice([0, 5, 40, 200]) if universe > 30 else rng.choice([0, 5]),
+        # keys are signed in half of the runs: 0 (a falsy key) then sits in the middle of the key
+        # space instead of being the minimum
+        "offset": rng.choice([0, universe // 2]),
     }
+    off = cfg["offset"]
     n = rng.choice([60, 200, 600, 1500] if big else [60, 200, 500])
     ops = []
     seq = 0
@@ -113,6 +117,7 @@ def gen_case(seed, tier):
         else:
             seq += 1
             k = (seq // 2) % universe
+        k -= off
         if r < 0.30:
             ops.append(["set", h, k])
         elif r < 0.50:
@@ -130,7 +135,7 @@ def gen_case(seed, tier):
         elif r < 0.67:
             ops.append(["drop", h, 0])
         elif r < 0.70:
-            ops.append(["setop", h, rng.choice(["|=", "&=", "-=", "^="]), [rng.randrange(universe) for _ in range(rng.choice([1, 3, 8]))]])
+            ops.append(["setop", h, rng.choice(["|=", "&=", "-=", "^="]), [rng.randrange(universe) - off for _ in range(rng.choice([1, 3, 8]))]])
         elif r < 0.74:
             ops.append(["copen", h, rng.randrange(4)])
         elif r < 0.76:
@@ -313,7 +318,7 @@ class _World:
         t0 = self._new_tree()
         rng = sub_rng(case["seed"], "preload")
         for _ in range(cfg["preload"]):
-            self._set(0, rng.randrange(cfg["universe"]))
+            self._set(0, rng.randrange(cfg["universe"]) - cfg.get("offset", 0))
 
     def _new_tree(self, original=None):
         B = _B
@@ -737,7 +742,7 @@ def run_case(case, keep_log=False):
         w._new_tree()
         rng = sub_rng(case["seed"], "preload")
         for _ in range(case["cfg"]["preload"]):
-            w._set(0, rng.randrange(case["cfg"]["universe"]))
+            w._set(0, rng.randrange(case["cfg"]["universe"]) - case["cfg"].get("offset", 0))
         w.check_all("after preload")
         every = 1 if len(case["ops"]) <= 250 else 4
         for n, op in enumerate(case["ops"]):
